@@ -980,6 +980,69 @@ def Forest.lawful : Aff → Forest → Bool
           (cells i).all (fun c => Forest.lawful ((xfOf c base).comp acc) ch)
       | .error _ => false) && Forest.lawful acc rest
 
+/-- the references of the block tree at which `Insert.transform` raises under the matrix accumulated on the way to them (the
+    traversal does not descend below such a reference), with the reason -/
+def Forest.failing : Aff → Forest → List (Ins × Err)
+  | _, .nil => []
+  | acc, .cons (.leaf _ _ _) rest => Forest.failing acc rest
+  | acc, .cons (.node i base ch) rest =>
+    (match transformIns acc i with
+      | .ok _ => (cells i).flatMap (fun c => Forest.failing ((xfOf c base).comp acc) ch)
+      | .error e => [(i, e)]) ++ Forest.failing acc rest
+
+/-- every reference of the tree has non-zero scale factors -/
+def Forest.scalesNZ : Forest → Bool
+  | .nil => true
+  | .cons (.leaf _ _ _) rest => Forest.scalesNZ rest
+  | .cons (.node i _ ch) rest => decide (i.sx ≠ 0) && decide (i.sy ≠ 0) && Forest.scalesNZ ch && Forest.scalesNZ rest
+
+
+/-! ## lineweight handed to the output by the backends (final round) -/
+
+/-- `_JSONBackend.configure` + `make_properties_dict` (the same rule is used by the other vector backends): `min_lineweight` of the
+    configuration is given in 1/300 inch (`none`/0: the default 0.05 mm), the minimum is never below 0.05 mm; with
+    `lineweight_scaling = 0` every stroke gets the minimum as a FIXED width, otherwise the width is
+    `max(minimum, lineweight * lineweight_scaling)` (before the rounding to 2 decimals of the JSON output) -/
+def backendMinLineweight (cfgMin : Option Rat) : Rat :=
+  match cfgMin with
+  | none => 1 / 20
+  | some k => if k = 0 then 1 / 20 else (let mm := k * (127 / 5) / 300; if 1 / 20 < mm then mm else 1 / 20)
+
+def backendStrokeWidth (cfgMin : Option Rat) (scaling : Rat) (lw : Rat) : Rat :=
+  let mn := backendMinLineweight cfgMin
+  if scaling = 0 then mn else (if mn < lw * scaling then lw * scaling else mn)
+
+/-! ## HATCH: decision logic of `draw_hatch_entity` (final round) -/
+
+/-- `config.HatchPolicy` (SHOW_APPROXIMATE_PATTERN is treated like NORMAL since v0.18.1) -/
+inductive HatchPolicy where
+  | normal | ignore | showOutline | showSolid | approx
+deriving DecidableEq, Repr, Inhabited
+
+/-- `Filling.type`: SOLID = 0, PATTERN = 1, GRADIENT = 2 -/
+inductive FillType where
+  | solid | pattern | gradient
+deriving DecidableEq, Repr, Inhabited
+
+/-- what is handed to the pipeline: nothing, the hatch lines of the pattern (`draw_hatch_pattern`), one unfilled path per boundary
+    loop (`draw_path`), or ONE call of `draw_filled_paths` with all loops -/
+inductive HatchOut where
+  | nothing | patternLines | outline (loops : Nat) | filled (loops : Nat)
+deriving DecidableEq, Repr, Inhabited
+
+/-- `UniversalFrontend.draw_hatch_entity` for a HATCH: `hasFilling` = `properties.filling is not None`, `ft` the resolved filling type,
+    `dense` = `draw_hatch_pattern` raises DenseHatchingLinesError, `loops` = number of closed boundary loops that are not text boxes -/
+def hatchDecision (hasFilling : Bool) (pol : HatchPolicy) (ft : FillType) (dense : Bool) (loops : Nat) : HatchOut :=
+  if !hasFilling then .nothing
+  else
+    match pol with
+    | .ignore => .nothing
+    | .showOutline => if loops = 0 then .nothing else .outline loops   -- filling := solid, show_only_outline
+    | .showSolid => if loops = 0 then .nothing else .filled loops      -- filling := solid
+    | _ =>
+      if ft = .pattern ∧ !dense then .patternLines
+      else if loops = 0 then .nothing else .filled loops
+
 /-! ## predicates used by the property statements -/
 
 /-- no layer table entry hides `name` (the layer is on, thawed and plotted, or undefined) -/
